@@ -446,6 +446,28 @@ def _config_sources(ps):
 
 # ---- field_wrapper.py / parsing.py / dataclass_wrapper.py --------------------------------------------
 
+def _arg_type_rules(fw):
+    """get_arg_options: for every arm of the annotation chain (and the final else), the `type=` / `action=` it gives the argument, in
+    source order (these converters are what a str default read from a file is passed through; Model/Leaf.v's arg_options mirrors them)"""
+    gao = find_def(fw, "get_arg_options", cls="FieldWrapper")
+    chain = None
+    for n in ast.walk(gao):
+        if isinstance(n, ast.If) and unparse(n.test) == "self.is_choice":
+            chain = n
+    if chain is None:
+        raise Unrecognised("get_arg_options: chain starting with `self.is_choice` not found")
+    arms, els = if_chain(chain)
+    rows = []
+    for test, body in [(unparse(t), b) for t, b in arms] + [("else", els)]:
+        assigns = []
+        for st in body:
+            for n in ast.walk(st):
+                if isinstance(n, ast.Assign) and len(n.targets) == 1 and unparse(n.targets[0]) in ("_arg_options['type']", "_arg_options['action']"):
+                    assigns.append((n.lineno, unparse(n)))
+        rows.append((test, [t for _, t in sorted(assigns)]))
+    return "[" + "; ".join(f"({cstr(t)}, {cstrs(a)})" for t, a in rows) + "]"
+
+
 def _field_wrapper_facts(fw):
     dflt = find_def(fw, "default", cls="FieldWrapper")
     # the chain of sources is the if statement that starts with the test on `self._default` (old shape: the first statement;
@@ -539,6 +561,7 @@ def emit(repo: str) -> str:
     exts = _extensions(ser)
     _check_save_and_read(ser)
     enum_as_name, sentinel, pp_table, dchain = _field_wrapper_facts(fw)
+    arg_types = _arg_type_rules(fw)
     steps = _parsing_facts(ps, dw)
     wdr = _wrapper_set_default(dw)
     oguard = _optional_guard(ps)
@@ -553,6 +576,7 @@ def emit(repo: str) -> str:
         f"Definition enum_default_as_name_gen : bool := {'true' if enum_as_name else 'false'}.\n"
         f"Definition default_sentinel_test_gen : string := {cstr(sentinel)}.\n"
         f"Definition fill_steps_gen : list string := {cstrs(steps + ['value = self.postprocess(value)', 'constructor_arguments[parent_dest][attribute] = value'])}.\n"
+        f"Definition arg_type_rules_gen : list (string * list string) := {arg_types}.\n"
         f"Definition postprocess_table_gen : list (pp_test * pp_rule) := {pp_table}.\n"
         f"Definition default_chain_gen : list dsrc := {dchain}.\n"
         f"Definition wrapper_default_recorded_gen : bool := {'true' if wdr else 'false'}.\n"
